@@ -391,6 +391,10 @@ class ExprMixin:
             na, nb = S.null(a.cls), S.null(b.cls)
             user = self.user_eq(m, a, b, path)
             return z3.If(z3.Or(a.t == na, b.t == nb), z3.And(a.t == na, b.t == nb), user)
+        if isinstance(a, VLib) and isinstance(b, VPy) or isinstance(b, VLib) and isinstance(a, VPy):
+            # a constant of a library (e.g. antlr4.Token.EOF) compared with an opaque library value: the constant is some value
+            lib, other = (a, b) if isinstance(a, VLib) else (b, a)
+            return other.t == z3.Const(f'libconst_{lib.dotted}.{lib.name}', S.PyVal)
         if isinstance(a, VElem) or isinstance(b, VElem):
             a2, b2 = self.coerce(a, ELEM), self.coerce(b, ELEM)
             if not (isinstance(a2, VElem) and isinstance(b2, VElem)):
